@@ -138,7 +138,7 @@ class KindInfer(ast.NodeVisitor):
                     return "Series"
                 if isinstance(e.slice, ast.List):
                     return "DataFrame"
-                return "DataFrame"
+                return None
         return None
 
 
